@@ -1017,3 +1017,65 @@ func dependsOnValue(v, x ssa.Value, d int) bool {
 	}
 	return false
 }
+
+// resolveArgAll is resolveArg for functions with several call sites: every value the parameter can stand for.
+func resolveArgAll(p *Prog, v ssa.Value, depth int) []ssa.Value {
+	v = resolve(v)
+	prm, ok := v.(*ssa.Parameter)
+	if !ok || depth > 4 {
+		return []ssa.Value{v}
+	}
+	fn := prm.Parent()
+	if fn.Parent() != nil {
+		return []ssa.Value{v}
+	}
+	sites := p.Callers(fn)
+	if len(sites) == 0 {
+		return []ssa.Value{v}
+	}
+	idx := inputIndexParam(fn, prm)
+	var out []ssa.Value
+	for _, site := range sites {
+		args := site.Common().Args
+		if site.Common().IsInvoke() {
+			args = append([]ssa.Value{site.Common().Value}, args...)
+		}
+		if idx < 0 || idx >= len(args) {
+			return []ssa.Value{v}
+		}
+		out = append(out, resolveArgAll(p, args[idx], depth+1)...)
+	}
+	return out
+}
+
+func containsValue(vs []ssa.Value, x ssa.Value) bool {
+	for _, v := range vs {
+		if v == x {
+			return true
+		}
+	}
+	return false
+}
+
+// goStartFor: the go statement in maker that starts g (a named function with possibly several go sites elsewhere)
+// and hands it the value v; nil if there is none or more than one.
+func goStartFor(p *Prog, g, maker *ssa.Function, v ssa.Value) *ssa.Go {
+	var found *ssa.Go
+	n := 0
+	for _, ci := range p.Callers(g) {
+		gi, ok := ci.(*ssa.Go)
+		if !ok || gi.Parent() != maker {
+			continue
+		}
+		for _, a := range gi.Common().Args {
+			if resolve(a) == v {
+				found = gi
+				n++
+			}
+		}
+	}
+	if n == 1 {
+		return found
+	}
+	return nil
+}
